@@ -58,7 +58,8 @@ def showSP (s : SP) : String :=
   let ls := ",".intercalate (s.layers.map fun l => s!"{l.thickness}:{l.tag}")
   let is := ",".intercalate (s.ifaces.map showIf)
   let o (x : Option Nat) := match x with | some t => toString t | none => "-"
-  s!"[{ls}|{is}|{o s.substrate}|{o s.atmosphere}]"
+  let zs := ",".intercalate (s.z.map toString)
+  s!"[{ls}|{is}|{o s.substrate}|{o s.atmosphere}|z={zs}]"
 
 def splitOps (ts : List String) : List (List String) :=
   (ts.foldl (fun (acc : List (List String)) t =>
